@@ -90,7 +90,7 @@ class Reached(Exception):
     pass
 
 
-def body(i: int, c0: int, c1: int, c2: int, x: int, y: int, p: bool, twin: bool = False):
+def body(i: int, c0: int, c1: int, c2: int, x: int, y: int, p: bool, twin: bool = False, totality: bool = False):
     """None = property holds for this input; otherwise a tuple describing the violation"""
     from hpl.rewrite import simplify
     name, tmpl = TEMPLATES[i]
@@ -100,6 +100,19 @@ def body(i: int, c0: int, c1: int, c2: int, x: int, y: int, p: bool, twin: bool 
     except TypeError:
         return None
     heap = sem.DictHeap({'x': x, 'y': y, 'p': p}, aliases={'A': {'x': y}})  # @A.x takes y's value
+    if totality:
+        # C14: only "no internal error, result of the documented kind"; no valuation involved
+        try:
+            out = simplify(ast)
+        except Exception as e:
+            if isinstance(e, ZeroDivisionError) or _closed_undefined(spec):
+                return None
+            return ('exception', name, type(e).__name__, str(e)[:200])
+        if twin:
+            return ('reached', name)
+        if not getattr(out, 'is_expression', False) or out.data_type != ast.data_type:
+            return ('wrong-kind', name, str(out))
+        return None
     try:
         vi = sem.pyeval(ast, heap)
         in_def = True
